@@ -111,14 +111,20 @@ theorem C08_assign (ops : DMOps σ) (rs : Regions) (cfg : List Nat) (caller : Op
   conv => lhs; unfold execItem
 #assert_axioms C08_assign
 
-/-- `<log>` and `<script>` evaluate their expression exactly once; an evaluation error ends the block -/
+/-- `<log>` and `<script>` evaluate their expression exactly once; an evaluation error ends the
+    block and (since the `fix:` commit for P11) `Expression::execute` / `Log::execute` raise one
+    `error.execution` themselves, behind whatever the data model raised -/
 theorem C08_log_script (ops : DMOps σ) (rs : Regions) (cfg : List Nat) (caller : Option Str) (f : Nat)
     (label e : Str) (x : XS σ) :
-    execItem ops rs cfg caller (f + 1) (.expr e) x = (x.absorb (ops.exec x.dm cfg e), (ops.exec x.dm cfg e).val.isSome) ∧
+    execItem ops rs cfg caller (f + 1) (.expr e) x =
+      ((if (ops.exec x.dm cfg e).val.isNone
+        then { (x.absorb (ops.exec x.dm cfg e)) with raised := (x.absorb (ops.exec x.dm cfg e)).raised ++ [errorExecution] }
+        else x.absorb (ops.exec x.dm cfg e)), (ops.exec x.dm cfg e).val.isSome) ∧
     execItem ops rs cfg caller (f + 1) (.log label e) x =
       (match (ops.exec x.dm cfg e).val with
        | some msg => ((x.absorb (ops.exec x.dm cfg e)).absorb (ops.log (ops.exec x.dm cfg e).dm msg), true)
-       | none => (x.absorb (ops.exec x.dm cfg e), false)) := by
+       | none => ({ (x.absorb (ops.exec x.dm cfg e)) with
+                     raised := (x.absorb (ops.exec x.dm cfg e)).raised ++ [errorExecution] }, false)) := by
   constructor
   · conv => lhs; unfold execItem
   · conv => lhs; unfold execItem
@@ -163,43 +169,50 @@ theorem C08_if_cond_error (ops : DMOps σ) (rs : Regions) (cfg : List Nat) (call
   simp [herr, XS.absorb]
 #assert_axioms C08_if_cond_error
 
-/-- error clause, what the code does NOT guarantee: for an erroring `<script>` / `<log>` /
-    `<send>` argument the only `error.execution` is the one the data model raises itself inside
-    `execute` — `Expression::execute`, `Log::execute`, `SendParameters::execute` add none for these.
-    With a data model that reports such errors as `Err` without raising (as rfsm-expression and
-    ECMAScript do for parse / reference errors), no event reaches the queue (finding P11). -/
-theorem C08_script_error_raises_nothing (ops : DMOps σ) (rs : Regions) (cfg : List Nat) (caller : Option Str)
-    (f : Nat) (e : Str) (x : XS σ)
-    (herr : (ops.exec x.dm cfg e).val = none) (hquiet : (ops.exec x.dm cfg e).raised = []) :
-    (execItem ops rs cfg caller (f + 1) (.expr e) x).1.raised = x.raised ∧
-    (execItem ops rs cfg caller (f + 1) (.expr e) x).2 = false := by
-  rw [(C08_log_script ops rs cfg caller f [] e x).1]
-  simp [herr, XS.absorb, hquiet]
-#assert_axioms C08_script_error_raises_nothing
+/-- error clause for `<script>` and `<log>` (since the `fix:` commit for P11): the events on the
+    queue after an erroring element are the old ones, what the data model raised itself, and ONE
+    `error.execution` from the element; the block ends -/
+theorem C08_script_error (ops : DMOps σ) (rs : Regions) (cfg : List Nat) (caller : Option Str)
+    (f : Nat) (l e : Str) (x : XS σ) (herr : (ops.exec x.dm cfg e).val = none) :
+    (execItem ops rs cfg caller (f + 1) (.expr e) x).1.raised =
+      x.raised ++ (ops.exec x.dm cfg e).raised ++ [errorExecution] ∧
+    (execItem ops rs cfg caller (f + 1) (.expr e) x).2 = false ∧
+    (execItem ops rs cfg caller (f + 1) (.log l e) x).1.raised =
+      x.raised ++ (ops.exec x.dm cfg e).raised ++ [errorExecution] ∧
+    (execItem ops rs cfg caller (f + 1) (.log l e) x).2 = false := by
+  rw [(C08_log_script ops rs cfg caller f l e x).1, (C08_log_script ops rs cfg caller f l e x).2]
+  simp [herr, XS.absorb]
+#assert_axioms C08_script_error
 
-/-- C08 at full strength needs, besides the structural clauses above, that *every* evaluation
-    error raises exactly one `error.execution`; for `<script>`: -/
+/-- the contract the code relies on (both real data models keep it; the oracle on the real data
+    models checks it on every run): an evaluation that reports an error raises nothing itself -/
+def QuietErrors (ops : DMOps σ) : Prop :=
+  ∀ dm cfg e, (ops.exec dm cfg e).val = none → (ops.exec dm cfg e).raised = []
+
+/-- C08 at full strength, error clause: *every* evaluation error of a `<script>` / `<log>` raises
+    exactly one `error.execution` (the structural clauses are the theorems above) -/
 def C08_full : Prop :=
-  ∀ (σ : Type) (ops : DMOps σ) (rs : Regions) (cfg : List Nat) (caller : Option Str) (f : Nat) (e : Str) (x : XS σ),
-    (ops.exec x.dm cfg e).val = none →
-      ∃ ev, (execItem ops rs cfg caller (f + 1) (.expr e) x).1.raised = x.raised ++ [ev] ∧ ev.name = errorExecution.name
+  ∀ (σ : Type) (ops : DMOps σ) (rs : Regions) (cfg : List Nat) (caller : Option Str) (f : Nat) (l e : Str) (x : XS σ),
+    QuietErrors ops → (ops.exec x.dm cfg e).val = none →
+      (execItem ops rs cfg caller (f + 1) (.expr e) x).1.raised = x.raised ++ [errorExecution] ∧
+      (execItem ops rs cfg caller (f + 1) (.log l e) x).1.raised = x.raised ++ [errorExecution]
 
-/-- … which fails for the code as it is: a data model that returns `Err` quietly -/
-theorem C08_counterexample : ¬ C08_full := by
-  intro h
-  let ops : DMOps Unit :=
-    { cond := fun dm _ _ => { dm := dm, val := none }, exec := fun dm _ _ => { dm := dm, val := none },
-      assign := fun dm _ _ _ => { dm := dm, val := false }, log := fun dm _ => { dm := dm, val := () },
-      foreachStart := fun dm _ _ _ _ => { dm := dm, val := none }, foreachBind := fun dm _ _ _ _ => dm,
-      getByLocation := fun dm _ _ => { dm := dm, val := none }, set := fun dm _ _ => dm, setEvent := fun dm _ => dm,
-      initData := fun dm _ _ => { dm := dm, val := () }, doneData := fun dm _ _ => { dm := dm, val := [] },
-      platformSend := fun _ _ _ _ => .noProcessor, hasProcessor := fun _ _ => false, parseDelay := fun _ => 0,
-      invoke := fun dm _ _ _ => { dm := dm } }
-  obtain ⟨ev, hev, _⟩ := h Unit ops [] [] none 0 [] { dm := () } rfl
-  have := (C08_script_error_raises_nothing ops [] [] none 0 [] { dm := () } rfl rfl).1
-  rw [this] at hev
-  simp at hev
-#assert_axioms C08_counterexample
+theorem C08 : C08_full := by
+  intro σ ops rs cfg caller f l e x hq herr
+  have h := C08_script_error ops rs cfg caller f l e x herr
+  rw [hq _ _ _ herr] at h
+  exact ⟨by simpa using h.1, by simpa using h.2.2.1⟩
+#assert_axioms C08
+
+/-- without the contract the element's own event comes on top: a data model that raises inside
+    `execute` AND reports the error gets two events -/
+theorem C08_two_events_without_contract (ops : DMOps σ) (rs : Regions) (cfg : List Nat) (caller : Option Str)
+    (f : Nat) (e : Str) (x : XS σ) (herr : (ops.exec x.dm cfg e).val = none)
+    (hr : (ops.exec x.dm cfg e).raised = [errorExecution]) :
+    (execItem ops rs cfg caller (f + 1) (.expr e) x).1.raised = x.raised ++ [errorExecution, errorExecution] := by
+  rw [(C08_script_error ops rs cfg caller f [] e x herr).1, hr]
+  simp
+#assert_axioms C08_two_events_without_contract
 
 /-- What holds (everything above): order, abort scope, if / elseif / else, foreach, raise, assign,
     log/script, block independence, and the error events `SendParameters::execute` raises itself. -/
